@@ -30,6 +30,8 @@ def gen_request(rng):
     gpc = rng.choice([0, 0, 1, 2, 4, rng.randint(-1, 20)])
     over = rng.choice([False, True])
     extra = rng.choice([[], [], ["--mem=1G"], ["-p", "debug"], ["--exclusive", "-t", "10"],
+                        ["--nodes", str(cores)], ["--ntasks-per-node", str(cores), "-N", "1"], ["-w", str(cwd)],
+                        ["-D", "/elsewhere"], ["srun", "-n"], ["--oversubscribe"],
                         [rstr(rng, 1, 8) for _ in range(rng.randint(1, 4))]])
     return dict(cores=cores, cwd=cwd, tpc=tpc, gpc=gpc, over=over, extra=extra)
 
@@ -177,7 +179,7 @@ def popen_of(spawner_cls, kwargs, cmd):
     return Multi(seen["args"], seen["cwd"])
 
 
-def bootup_of(platform, host, port, cmd, hl):
+def bootup_of(platform, host, port, cmd, hl, copy=True):
     co = mods()[1]
     seen = {}
 
@@ -194,7 +196,7 @@ def bootup_of(platform, host, port, cmd, hl):
     fake_sys = types.SimpleNamespace(platform=platform)
     with mock.patch.object(co, "SocketInterface", FakeIf), mock.patch.object(co, "gethostname", lambda: host), \
             mock.patch.object(co, "sys", fake_sys):
-        co.interface_bootup(command_lst=list(cmd), connections=None, hostname_localhost=hl)
+        co.interface_bootup(command_lst=list(cmd) if copy else cmd, connections=None, hostname_localhost=hl)
     return seen["cmd"]
 
 
@@ -208,171 +210,173 @@ def q_args(q):
         q["cores"], pyval(q["cwd"]), q["tpc"], q["gpc"], pyval(q["over"]), pyval(q["extra"]))
 
 
-def run(res):
+def build_all(res):
     rng = res.rng
     n = 300 if res.tier == "quick" else 3000
     sp, co, be, sh = mods()
     cs = importlib.import_module("executorlib.cache.shared")
-    with core.Lock():
-        gate = core.grep_gate()
-        status = core.regen()
-        pr = core.proof_stage(res, PID, CONE, GEN, status)
-        if gate:
-            pr["ok"] = False
-            pr["broken"].append({"kind": "gate", "error": gate})
-        # ---------------- cases: (function, input, coq expression, python outcome, oracle verdict)
-        cases = []
-        reqs = [gen_request(rng) for _ in range(n)]
-        reqs += [dict(cores=c, cwd=w, tpc=t, gpc=g, over=o, extra=e)
-                 for c in (1, 2) for w in (None, "/w d") for t in (1, 2) for g in (0, 1) for o in (False, True)
-                 for e in ([], ["-p", "x"])]
-        for q in reqs:
-            py = show_outcome(lambda: sp.generate_slurm_command(
-                cores=q["cores"], cwd=q["cwd"], threads_per_core=q["tpc"], gpus_per_core=q["gpc"],
-                openmpi_oversubscribe=q["over"], slurm_cmd_args=list(q["extra"])))
-            cases.append(("generate_slurm_command", q, "show_res (generate_slurm_command %s)" % q_args(q), py, None))
-            # through the spawner object, as Popen sees it
-            kw = dict(cwd=q["cwd"], cores=q["cores"], threads_per_core=q["tpc"], gpus_per_core=q["gpc"],
-                      openmpi_oversubscribe=q["over"], slurm_cmd_args=list(q["extra"]))
-            verdict = None
+    # ---------------- cases: (function, input, coq expression, python outcome, oracle verdict)
+    cases = []
+    reqs = [gen_request(rng) for _ in range(n)]
+    reqs += [dict(cores=c, cwd=w, tpc=t, gpc=g, over=o, extra=e)
+             for c in (1, 2) for w in (None, "/w d") for t in (1, 2) for g in (0, 1) for o in (False, True)
+             for e in ([], ["-p", "x"])]
+    for q in reqs:
+        py = show_outcome(lambda: sp.generate_slurm_command(
+            cores=q["cores"], cwd=q["cwd"], threads_per_core=q["tpc"], gpus_per_core=q["gpc"],
+            openmpi_oversubscribe=q["over"], slurm_cmd_args=list(q["extra"])))
+        cases.append(("generate_slurm_command", q, "show_res (generate_slurm_command %s)" % q_args(q), py, None))
+        # through the spawner object, as Popen sees it
+        kw = dict(cwd=q["cwd"], cores=q["cores"], threads_per_core=q["tpc"], gpus_per_core=q["gpc"],
+                  openmpi_oversubscribe=q["over"], slurm_cmd_args=list(q["extra"]))
+        verdict = None
+        try:
+            m = popen_of(sp.SrunSpawner, kw, WORKER)
+            verdict = oracle_srun(q, m.vals[0])
+            if verdict is None and m.vals[1] != q["cwd"]:
+                verdict = "Popen cwd %r differs from requested %r" % (m.vals[1], q["cwd"])
+            py2 = "Ok " + show(m.vals[0]) + " | " + show(m.vals[1])
+        except Exception as ex:  # noqa
+            py2 = "Err " + type(ex).__name__
+            verdict = "spawner raised %r" % (ex,)
+        coq = ("show_res2 ('(_, self) <- SrunSpawner___init__ (VDict []) %s (VInt (%d)) (VInt (%d)) (VInt (%d)) %s %s ;; "
+               "SrunSpawner_bootup self %s)") % (pyval(q["cwd"]), q["cores"], q["tpc"], q["gpc"], pyval(q["over"]),
+                                                 pyval(q["extra"]), pyval(WORKER))
+        cases.append(("SrunSpawner.bootup", q, coq, py2, verdict))
+        # mpiexec
+        py3 = show_outcome(lambda: sp.generate_mpiexec_command(cores=q["cores"], openmpi_oversubscribe=q["over"]))
+        cases.append(("generate_mpiexec_command", q, "show_res (generate_mpiexec_command (VInt (%d)) %s)" % (
+            q["cores"], pyval(q["over"])), py3, None))
+        verdict = None
+        try:
+            m = popen_of(sp.MpiExecSpawner, dict(cwd=q["cwd"], cores=q["cores"], openmpi_oversubscribe=q["over"],
+                                                 threads_per_core=q["tpc"]), WORKER)
+            verdict = oracle_mpi(q, m.vals[0])
+            if verdict is None and m.vals[1] != q["cwd"]:
+                verdict = "Popen cwd %r differs from requested %r" % (m.vals[1], q["cwd"])
+            py4 = "Ok " + show(m.vals[0]) + " | " + show(m.vals[1])
+        except Exception as ex:  # noqa
+            py4 = "Err " + type(ex).__name__
+            verdict = "spawner raised %r" % (ex,)
+        coq = ("show_res2 ('(_, self) <- SubprocessSpawner___init__ (VDict []) %s (VInt (%d)) %s (VInt (%d)) ;; "
+               "MpiExecSpawner_bootup self %s)") % (pyval(q["cwd"]), q["cores"], pyval(q["over"]), q["tpc"], pyval(WORKER))
+        cases.append(("MpiExecSpawner.bootup", q, coq, py4, verdict))
+    # worker command and parser
+    for _ in range(n):
+        host = rng.choice(["localhost", "node-17.cluster", "--host", "10.0.0.3", rstr(rng, 1, 15)])
+        port = rng.choice([0, 1, 5555, 49152, 65535, rng.randint(1, 70000)])
+        hl = rng.choice([None, True, False])
+        platform = rng.choice(["linux", "darwin", "win32"])
+        script = rng.choice(["/x/backend/interactive_serial.py", "/a b/interactive_parallel.py", rstr(rng, 1, 10)])
+        exe = rng.choice(["/usr/bin/python3", "/opt/my env/bin/python"])
+        inp = dict(host=host, port=port, hostname_localhost=hl, platform=platform, script=script, exe=exe)
+        verdict = None
+        try:
+            cmd = bootup_of(platform, host, port, [exe, script], hl)
+            py = "Ok " + show(cmd)
+            parsed = be.parse_arguments(argument_lst=cmd[1:])
+            local = hl if hl is not None else (platform == "darwin")
+            exp = {"host": "localhost" if local else host, "zmqport": str(port)}
+            if script not in ("--host", "--zmqport") and host != "--zmqport":
+                if cmd[:2] != [exe, script]:
+                    verdict = "worker command does not start with interpreter and script: %r" % (cmd,)
+                elif parsed != exp or int(parsed["zmqport"]) != port:
+                    verdict = "parser returned %r for %r, expected %r" % (parsed, cmd, exp)
+        except Exception as ex:  # noqa
+            py = "Err " + type(ex).__name__
+            verdict = "raised %r" % (ex,)
+            cmd = None
+        coq = "show_res (interface_bootup %s %s (VInt (%d)) %s VNone %s)" % (
+            pyval(platform), pyval(host), port, pyval([exe, script]), pyval(hl))
+        cases.append(("interface_bootup", inp, coq, py, verdict))
+        if cmd is not None:
+            py = show_outcome(lambda: be.parse_arguments(argument_lst=cmd[1:]))
+            cases.append(("parse_arguments", dict(argv=cmd[1:]), "show_res (parse_arguments %s)" % pyval(cmd[1:]), py, None))
+        # adversarial argv for the parser itself (translator test only)
+        argv = [rng.choice(["--host", "--zmqport", "x", "5", rstr(rng, 0, 4)]) for _ in range(rng.randint(0, 6))]
+        py = show_outcome(lambda: be.parse_arguments(argument_lst=list(argv)))
+        cases.append(("parse_arguments", dict(argv=argv), "show_res (parse_arguments %s)" % pyval(argv), py, None))
+        # backend script choice
+        cores = rng.choice([1, 1, 2, 3, 16])
+        has = rng.choice([True, False])
+        ev = lambda mod, e: eval(e, mod.__dict__)  # noqa
+        opa = [sh.sys.executable, has, ev(sh, "get_command_path(executable='interactive_parallel.py')"),
+               ev(sh, "get_command_path(executable='interactive_serial.py')")]
+        py = show_outcome(lambda: backend_path_of(sh, "_get_backend_path", has, cores))
+        verdict = None
+        if cores > 1 and has and py != "Ok " + show([opa[0], opa[2]]):
+            verdict = "parallel script not chosen for cores=%d: %s" % (cores, py)
+        if cores == 1 and py != "Ok " + show([opa[0], opa[3]]):
+            verdict = "serial script not chosen for cores=1: %s" % py
+        cases.append(("_get_backend_path", dict(cores=cores, has_mpi4py=has),
+                      "show_res (_get_backend_path %s (VInt (%d)))" % (" ".join(pyval(x) for x in opa), cores), py, verdict))
+        opa2 = [cs.sys.executable, has, ev(cs, "get_command_path(executable='cache_parallel.py')"),
+                ev(cs, "get_command_path(executable='cache_serial.py')")]
+        fname = rng.choice(["/c/f_abc.h5in", "/my cache/x.h5in"])
+        py = show_outcome(lambda: backend_path_of(cs, "_get_execute_command", has, fname, cores))
+        verdict = None
+        if cores > 1 and has:
+            d = None
             try:
-                m = popen_of(sp.SrunSpawner, kw, WORKER)
-                verdict = oracle_srun(q, m.vals[0])
-                if verdict is None and m.vals[1] != q["cwd"]:
-                    verdict = "Popen cwd %r differs from requested %r" % (m.vals[1], q["cwd"])
-                py2 = "Ok " + show(m.vals[0]) + " | " + show(m.vals[1])
+                d = decode_mpiexec(cs._get_execute_command(fname, cores) if False else
+                                   backend_path_of(cs, "_get_execute_command", True, fname, cores))
             except Exception as ex:  # noqa
-                py2 = "Err " + type(ex).__name__
-                verdict = "spawner raised %r" % (ex,)
-            coq = ("show_res2 ('(_, self) <- SrunSpawner___init__ (VDict []) %s (VInt (%d)) (VInt (%d)) (VInt (%d)) %s %s ;; "
-                   "SrunSpawner_bootup self %s)") % (pyval(q["cwd"]), q["cores"], q["tpc"], q["gpc"], pyval(q["over"]),
-                                                     pyval(q["extra"]), pyval(WORKER))
-            cases.append(("SrunSpawner.bootup", q, coq, py2, verdict))
-            # mpiexec
-            py3 = show_outcome(lambda: sp.generate_mpiexec_command(cores=q["cores"], openmpi_oversubscribe=q["over"]))
-            cases.append(("generate_mpiexec_command", q, "show_res (generate_mpiexec_command (VInt (%d)) %s)" % (
-                q["cores"], pyval(q["over"])), py3, None))
-            verdict = None
-            try:
-                m = popen_of(sp.MpiExecSpawner, dict(cwd=q["cwd"], cores=q["cores"], openmpi_oversubscribe=q["over"],
-                                                     threads_per_core=q["tpc"]), WORKER)
-                verdict = oracle_mpi(q, m.vals[0])
-                if verdict is None and m.vals[1] != q["cwd"]:
-                    verdict = "Popen cwd %r differs from requested %r" % (m.vals[1], q["cwd"])
-                py4 = "Ok " + show(m.vals[0]) + " | " + show(m.vals[1])
-            except Exception as ex:  # noqa
-                py4 = "Err " + type(ex).__name__
-                verdict = "spawner raised %r" % (ex,)
-            coq = ("show_res2 ('(_, self) <- SubprocessSpawner___init__ (VDict []) %s (VInt (%d)) %s (VInt (%d)) ;; "
-                   "MpiExecSpawner_bootup self %s)") % (pyval(q["cwd"]), q["cores"], pyval(q["over"]), q["tpc"], pyval(WORKER))
-            cases.append(("MpiExecSpawner.bootup", q, coq, py4, verdict))
-        # worker command and parser
-        for _ in range(n):
-            host = rng.choice(["localhost", "node-17.cluster", "--host", "10.0.0.3", rstr(rng, 1, 15)])
-            port = rng.choice([0, 1, 5555, 49152, 65535, rng.randint(1, 70000)])
-            hl = rng.choice([None, True, False])
-            platform = rng.choice(["linux", "darwin", "win32"])
-            script = rng.choice(["/x/backend/interactive_serial.py", "/a b/interactive_parallel.py", rstr(rng, 1, 10)])
-            exe = rng.choice(["/usr/bin/python3", "/opt/my env/bin/python"])
-            inp = dict(host=host, port=port, hostname_localhost=hl, platform=platform, script=script, exe=exe)
-            verdict = None
-            try:
-                cmd = bootup_of(platform, host, port, [exe, script], hl)
-                py = "Ok " + show(cmd)
-                parsed = be.parse_arguments(argument_lst=cmd[1:])
-                local = hl if hl is not None else (platform == "darwin")
-                exp = {"host": "localhost" if local else host, "zmqport": str(port)}
-                if script not in ("--host", "--zmqport") and host != "--zmqport":
-                    if cmd[:2] != [exe, script]:
-                        verdict = "worker command does not start with interpreter and script: %r" % (cmd,)
-                    elif parsed != exp or int(parsed["zmqport"]) != port:
-                        verdict = "parser returned %r for %r, expected %r" % (parsed, cmd, exp)
-            except Exception as ex:  # noqa
-                py = "Err " + type(ex).__name__
                 verdict = "raised %r" % (ex,)
-                cmd = None
-            coq = "show_res (interface_bootup %s %s (VInt (%d)) %s VNone %s)" % (
-                pyval(platform), pyval(host), port, pyval([exe, script]), pyval(hl))
-            cases.append(("interface_bootup", inp, coq, py, verdict))
-            if cmd is not None:
-                py = show_outcome(lambda: be.parse_arguments(argument_lst=cmd[1:]))
-                cases.append(("parse_arguments", dict(argv=cmd[1:]), "show_res (parse_arguments %s)" % pyval(cmd[1:]), py, None))
-            # adversarial argv for the parser itself (translator test only)
-            argv = [rng.choice(["--host", "--zmqport", "x", "5", rstr(rng, 0, 4)]) for _ in range(rng.randint(0, 6))]
-            py = show_outcome(lambda: be.parse_arguments(argument_lst=list(argv)))
-            cases.append(("parse_arguments", dict(argv=argv), "show_res (parse_arguments %s)" % pyval(argv), py, None))
-            # backend script choice
-            cores = rng.choice([1, 1, 2, 3, 16])
-            has = rng.choice([True, False])
-            ev = lambda mod, e: eval(e, mod.__dict__)  # noqa
-            opa = [sh.sys.executable, has, ev(sh, "get_command_path(executable='interactive_parallel.py')"),
-                   ev(sh, "get_command_path(executable='interactive_serial.py')")]
-            py = show_outcome(lambda: backend_path_of(sh, "_get_backend_path", has, cores))
-            verdict = None
-            if cores > 1 and has and py != "Ok " + show([opa[0], opa[2]]):
-                verdict = "parallel script not chosen for cores=%d: %s" % (cores, py)
-            if cores == 1 and py != "Ok " + show([opa[0], opa[3]]):
-                verdict = "serial script not chosen for cores=1: %s" % py
-            cases.append(("_get_backend_path", dict(cores=cores, has_mpi4py=has),
-                          "show_res (_get_backend_path %s (VInt (%d)))" % (" ".join(pyval(x) for x in opa), cores), py, verdict))
-            opa2 = [cs.sys.executable, has, ev(cs, "get_command_path(executable='cache_parallel.py')"),
-                    ev(cs, "get_command_path(executable='cache_serial.py')")]
-            fname = rng.choice(["/c/f_abc.h5in", "/my cache/x.h5in"])
-            py = show_outcome(lambda: backend_path_of(cs, "_get_execute_command", has, fname, cores))
-            verdict = None
-            if cores > 1 and has:
-                d = None
-                try:
-                    d = decode_mpiexec(cs._get_execute_command(fname, cores) if False else
-                                       backend_path_of(cs, "_get_execute_command", True, fname, cores))
-                except Exception as ex:  # noqa
-                    verdict = "raised %r" % (ex,)
-                if verdict is None and d != (cores, False, [opa2[0], opa2[2], fname]):
-                    verdict = "file-mode command decodes to %r" % (d,)
-            cases.append(("_get_execute_command", dict(cores=cores, has_mpi4py=has, file=fname),
-                          "show_res (_get_execute_command %s %s (VInt (%d)))" % (" ".join(pyval(x) for x in opa2), pyval(fname), cores), py, verdict))
-        # validate the Python oracle against the Coq specification (decoders agree on generated argv)
-        spec_cases = []
-        for q in reqs[:n]:
+            if verdict is None and d != (cores, False, [opa2[0], opa2[2], fname]):
+                verdict = "file-mode command decodes to %r" % (d,)
+        cases.append(("_get_execute_command", dict(cores=cores, has_mpi4py=has, file=fname),
+                      "show_res (_get_execute_command %s %s (VInt (%d)))" % (" ".join(pyval(x) for x in opa2), pyval(fname), cores), py, verdict))
+    # the worker command as execute_parallel_tasks assembles it, several workers in one process:
+    # _get_backend_path's list goes to interface_bootup as the same object
+    for _ in range(max(10, n // 10)):
+        cores = rng.choice([1, 2, 4])
+        outs = []
+        verdict = None
+        for k in range(3):
+            port = 5000 + k
             try:
-                argv = sp.generate_slurm_command(q["cores"], q["cwd"], q["tpc"], q["gpc"], q["over"], []) + WORKER
-            except Exception:  # noqa
-                continue
-            if rng.random() < 0.3 and len(argv) > 3:
-                i = rng.randrange(1, len(argv))
-                argv = argv[:i] + [rng.choice(["-n", "-c", "--bogus", "-D", "--ntasks=3", "--cpus-per-task=x", "-s"])] + argv[i:]
-            d = decode_srun(argv)
-            py = "None" if d is None else "%d|%s|%d|%d|%s|%s" % (
-                d[0]["cores"], show(d[0]["cwd"]), d[0]["tpc"], d[0]["gpc"], show(d[0]["over"]), show(d[1]))
-            coq = ("match decode_srun %s with None => \"None\" | Some (r, rest) => "
-                   "dec (r_cores r) ++ \"|\" ++ show (opt_str (r_cwd r)) ++ \"|\" ++ dec (r_tpc r) ++ \"|\" ++ dec (r_gpc r) ++ \"|\" ++ "
-                   "show (VBool (r_over r)) ++ \"|\" ++ show (strs rest) end") % ("[" + "; ".join(core.coq_str(a) for a in argv) + "]")
-            spec_cases.append((argv, coq, py))
-        mismatches = []
-        evaluated = 0
-        gen_ok = all(status.get(g) is None for g in GEN)
-        if gen_ok:
-            ok, log = core.make(["theories/Base/Show.vo", "theories/Model/Grammar.vo"] + ["theories/Gen/%s.vo" % g for g in GEN])
-            if not ok:
-                pr["ok"] = False
-                pr["broken"].append({"kind": "gen-compile", "error": core.first_error(log)})
-            else:
-                try:
-                    outs = core.eval_strings(IMPORTS, [c[2] for c in cases], PID + "_diff")
-                    evaluated = len(outs)
-                    for c, o in zip(cases, outs):
-                        if o != c[3]:
-                            mismatches.append({"function": c[0], "input": c[1], "python": c[3], "coq_model": o})
-                    souts = core.eval_strings(IMPORTS, [c[1] for c in spec_cases], PID + "_spec")
-                    for c, o in zip(spec_cases, souts):
-                        if o != c[2]:
-                            mismatches.append({"function": "decode_srun (oracle vs specification)", "input": c[0],
-                                               "python": c[2], "coq_model": o})
-                except core.CaseEvalError as ex:
-                    pr["ok"] = False
-                    pr["broken"].append({"kind": "case-eval", "error": str(ex)[-1500:]})
-    oracle_fail = [{"function": c[0], "input": c[1], "observed": c[3], "why": c[4]} for c in cases if c[4]]
-    decide(res, pr, mismatches, oracle_fail, cases, evaluated)
+                cmd0 = backend_path_of(sh, "_get_backend_path", True, cores)
+                cmd = bootup_of("linux", "node1", port, cmd0, False, copy=False)
+                outs.append(cmd)
+                exp_script = "interactive_parallel.py" if cores > 1 else "interactive_serial.py"
+                if len(cmd) != 6 or not cmd[1].endswith(exp_script) or cmd[2:] != ["--host", "node1", "--zmqport", str(port)]:
+                    verdict = "worker %d of the same process gets command %r" % (k + 1, cmd)
+                    break
+                if be.parse_arguments(argument_lst=cmd[1:]) != {"host": "node1", "zmqport": str(port)}:
+                    verdict = "worker %d: parser recovers %r from %r" % (k + 1, be.parse_arguments(argument_lst=cmd[1:]), cmd)
+                    break
+            except Exception as ex:  # noqa
+                verdict = "raised %r" % (ex,)
+                break
+        cases.append(("worker command x3 (same process)", dict(cores=cores), None, "Ok " + show(outs), verdict))
+    # validate the Python oracle against the Coq specification (decoders agree on generated argv)
+    spec_cases = []
+    for q in reqs[:n]:
+        try:
+            argv = sp.generate_slurm_command(q["cores"], q["cwd"], q["tpc"], q["gpc"], q["over"], []) + WORKER
+        except Exception:  # noqa
+            continue
+        if rng.random() < 0.3 and len(argv) > 3:
+            i = rng.randrange(1, len(argv))
+            argv = argv[:i] + [rng.choice(["-n", "-c", "--bogus", "-D", "--ntasks=3", "--cpus-per-task=x", "-s"])] + argv[i:]
+        d = decode_srun(argv)
+        py = "None" if d is None else "%d|%s|%d|%d|%s|%s" % (
+            d[0]["cores"], show(d[0]["cwd"]), d[0]["tpc"], d[0]["gpc"], show(d[0]["over"]), show(d[1]))
+        coq = ("match decode_srun %s with None => \"None\" | Some (r, rest) => "
+               "dec (r_cores r) ++ \"|\" ++ show (opt_str (r_cwd r)) ++ \"|\" ++ dec (r_tpc r) ++ \"|\" ++ dec (r_gpc r) ++ \"|\" ++ "
+               "show (VBool (r_over r)) ++ \"|\" ++ show (strs rest) end") % ("[" + "; ".join(core.coq_str(a) for a in argv) + "]")
+        spec_cases.append((argv, coq, py))
+    return cases, [("decode_srun", c[0], c[1], c[2]) for c in spec_cases]
+
+
+def run(res):
+    box = {}
+
+    def build_cases(res):
+        box["cases"], box["specs"] = build_all(res)
+        return box["cases"]
+
+    core.standard_run(res, PID, CONE, GEN, IMPORTS, build_cases, RULE, ASSUME, extra_specs=lambda res: box["specs"])
 
 
 def os_path_exists(rel):
